@@ -45,63 +45,107 @@ void h_crc_check_value(void)
 }
 
 /* ------------------------------------------------------------------ writeLogEntry */
-#define S (self->_logStream)
-/* The ghost stream counts the bytes it accepted; the contract puts its origin at the call (S.n == 0): no shim behaviour depends on
- * the absolute count (only on GW - n), so this is no restriction - and it keeps the 64-bit position arithmetic cheap for the SAT back end
+/* writeLogEntry is loop-free once crc32 is its stub, so plain harnesses over fully symbolic inputs are complete proofs (UNITS.md;
+ * measured: the same clauses through DFCC: 1.5 M clauses, > 270 s; plain, one clause group per proof: seconds).
+ * Frame: the type environment gives the function exactly one member (_logStream); anything else would not compile (exit 2).
+ *
+ * The ghost stream counts the bytes it accepted; the harness puts its origin at the call (n == 0): no shim behaviour depends on the
+ * absolute count (only on GW - n), so this is no restriction, and it keeps the 64-bit position arithmetic cheap for the SAT back end
  * (measured: arbitrary origin 70 s per clause, origin 0: 3 s).  GW is therefore the index of the witness byte INSIDE the record. */
-#define WLE_PRE \
-__CPROVER_requires(IORA_TRUE && iora_exc == EXC_NONE && __CPROVER_is_fresh(self, sizeof(*self))) \
-/* call sites: op is one of the four literals; validateKeyValue / keys taken from _kv bound the sizes */ \
-__CPROVER_requires(op == OP_S || op == OP_D || op == OP_E || op == OP_X) \
-__CPROVER_requires(key.n >= 1 && key.n <= MAX_KEY_LENGTH && __CPROVER_is_fresh(key.p, key.n)) \
-__CPROVER_requires(value.n <= MAX_VALUE_LENGTH && __CPROVER_is_fresh(value.p, value.n)) \
-__CPROVER_requires(S.n == 0 && S.flushed == 0 && S.nflush == 0 && G_crc_calls == 0) \
-/* witness coupling: the payload vector is written at record offset 4, so its witness index is GW - 4 */ \
-__CPROVER_requires(GW >= 4 ==> GK == GW - 4) \
-__CPROVER_assigns(iora_exc, self->_logStream, G_crc_calls, G_crc_arg_n, G_crc_arg_gk)
+#define WLE_SETUP \
+  KVStore st; KVStore *self = &st; \
+  st._logStream.open = nondet_bool(); st._logStream.failed = nondet_bool(); st._logStream.gw = nondet_u8(); \
+  st._logStream.n = 0; st._logStream.flushed = 0; st._logStream.flush_at = 0; st._logStream.nflush = 0; \
+  char op = (char)nondet_u8(); iora_sv key; iora_bv value; int64_t expiryMs = nondet_i64(); \
+  key.n = nondet_size_t(); value.n = nondet_size_t(); \
+  GW = nondet_size_t(); GK = nondet_size_t(); G_crc_ret = nondet_u32(); G_crc_calls = 0; G_crc_arg_n = nondet_size_t(); G_crc_arg_gk = nondet_u8(); \
+  /* call sites: op is one of the four literals; validateKeyValue / keys taken from _kv bound the sizes */ \
+  __CPROVER_assume(op == OP_S || op == OP_D || op == OP_E || op == OP_X); \
+  __CPROVER_assume(key.n >= 1 && key.n <= MAX_KEY_LENGTH); \
+  __CPROVER_assume(value.n <= MAX_VALUE_LENGTH); \
+  key.p = malloc(key.n); value.p = malloc(value.n); \
+  __CPROVER_assume(key.p != NULL && value.p != NULL);      /* fresh, separate, fully symbolic contents */ \
+  /* witness coupling: the payload vector is written at record offset 4, so its witness index is GW - 4 */ \
+  __CPROVER_assume(GW >= 4 ==> GK == GW - 4); \
+  bool was_open = st._logStream.open; \
+  IORA_TRUE = 1; iora_exc = EXC_NONE; \
+  KVStore_writeLogEntry(self, op, key, value, expiryMs); \
+  IORA_CANARY("h_wle: returns"); \
+  if (iora_exc == EXC_NONE) { IORA_CANARY("h_wle: acknowledged"); } else { IORA_CANARY("h_wle: exception"); } \
+  if (iora_exc == EXC_NONE && op == OP_E && value.n > 0) { IORA_CANARY("h_wle: E record with a value"); } \
+  if (iora_exc == EXC_NONE && op == OP_D) { IORA_CANARY("h_wle: D record"); } \
+  if (iora_exc != EXC_NONE && st._logStream.n > 4) { IORA_CANARY("h_wle: torn record (a write failed after some bytes)"); }
+#define S (st._logStream)
+#define IMPL(a, b) (!(a) || (b))
 
-/* proof "wle_safety": built-in checks, shim preconditions, frame, and the exception discipline */
-void KVStore_writeLogEntry_safety(KVStore *self, char op, iora_sv key, iora_bv value, int64_t expiryMs)
-WLE_PRE
-/* X1 */ __CPROVER_ensures(iora_exc == EXC_NONE || iora_exc == EXC_KVStoreException)
-/* X2 a closed stream is an error and nothing is written */
-__CPROVER_ensures(!__CPROVER_old(self->_logStream.open) ==> (iora_exc == EXC_KVStoreException && S.n == 0))
-;
+/* proof "wle_safety": built-in checks (bounds, pointers, conversions, signed+unsigned overflow), shim preconditions, exception discipline */
+void h_wle_safety(void)
+{
+  WLE_SETUP
+  __CPROVER_assert(iora_exc == EXC_NONE || iora_exc == EXC_KVStoreException, "X1 only KVStoreException is raised");
+  __CPROVER_assert(IMPL(!was_open, iora_exc == EXC_KVStoreException && S.n == 0), "X2 a closed stream is an error and nothing is written");
+}
 
-/* proof "wle_functional": the bytes handed to the stream are exactly enc(op,key,exp,val) */
-void KVStore_writeLogEntry_contract(KVStore *self, char op, iora_sv key, iora_bv value, int64_t expiryMs)
-WLE_PRE
-/* ENC1 on success exactly |enc| bytes were handed to the stream */
-__CPROVER_ensures(iora_exc == EXC_NONE ==> S.n == ENC_N(op, key, value))
-/* ENC2 on EVERY path (also a failed write) the bytes handed over are a prefix of enc: a torn record is a prefix of a valid one */
-__CPROVER_ensures(S.n <= ENC_N(op, key, value))
-/* ENC3 the byte at the arbitrary witness index GW of the record, by region (all paths, for the bytes that were handed over):
- *  a) length prefix: len32 == |payload| + 4, little-endian */
-__CPROVER_ensures((GW < S.n && GW < 4) ==> S.gw == LE_BYTE((uint32_t)(PAY_N(op, key, value) + 4), GW))
-/*  b) payload: op | klen32 | key | [exp64] | [vlen32 | val]   (GK == GW - 4 by the coupling above) */
-__CPROVER_ensures((GW < S.n && GW >= 4 && GW - 4 < PAY_N(op, key, value)) ==> S.gw == PAY_BYTE(GK, op, key, value, expiryMs))
-/*  c) trailer: the value crc32 returned, little-endian */
-__CPROVER_ensures((GW < S.n && GW >= 4 && GW - 4 >= PAY_N(op, key, value)) ==> S.gw == LE_BYTE(G_crc_ret, GW - 4 - PAY_N(op, key, value)))
-/* CRC the trailer value is crc32 of exactly the payload: one call, on a vector whose length and (arbitrary GK) byte are the payload's */
-__CPROVER_ensures(__CPROVER_old(self->_logStream.open) ==> (G_crc_calls == 1 && G_crc_arg_n == PAY_N(op, key, value)))
-__CPROVER_ensures((__CPROVER_old(self->_logStream.open) && GK < PAY_N(op, key, value)) ==> G_crc_arg_gk == PAY_BYTE(GK, op, key, value, expiryMs))
-/* ACK1 acknowledged => flush() was called, once, after the last byte of the record was handed over */
-__CPROVER_ensures(iora_exc == EXC_NONE ==> (S.nflush == 1 && S.flush_at == S.n))
-;
+/* proof "wle_len": lengths, CRC call, flush order */
+void h_wle_len(void)
+{
+  WLE_SETUP
+  __CPROVER_assert(IMPL(iora_exc == EXC_NONE, S.n == ENC_N(op, key, value)), "ENC1 on success exactly |enc(op,key,exp,val)| bytes were handed to the stream");
+  __CPROVER_assert(S.n <= ENC_N(op, key, value), "ENC2 on every path (also a failed write) at most |enc| bytes are handed over: a torn record is a prefix of a valid one");
+  __CPROVER_assert(IMPL(was_open, G_crc_calls == 1 && G_crc_arg_n == PAY_N(op, key, value)), "CRC1 crc32 is computed once, over a vector of exactly |payload| bytes");
+  __CPROVER_assert(IMPL(iora_exc == EXC_NONE, S.nflush == 1 && S.flush_at == S.n), "ACK1 acknowledged => flush() called once, after the last byte of the record was handed over");
+}
+
+/* proof "wle_frame": the byte at the arbitrary witness index GW of the record - length prefix and trailer */
+void h_wle_frame(void)
+{
+  WLE_SETUP
+  __CPROVER_assert(IMPL(GW < S.n && GW < 4, S.gw == LE_BYTE((uint32_t)(PAY_N(op, key, value) + 4), GW)),
+                   "ENC3a length prefix: len32 == |payload| + 4, little-endian (all paths, for bytes handed over)");
+  __CPROVER_assert(IMPL(GW < S.n && GW >= 4 && GW - 4 >= PAY_N(op, key, value), S.gw == LE_BYTE(G_crc_ret, GW - 4 - PAY_N(op, key, value))),
+                   "ENC3c trailer: the value crc32 returned, little-endian");
+}
+
+/* proof "wle_payload": payload layout, both as given to crc32 and as handed to the stream */
+void h_wle_payload(void)
+{
+  WLE_SETUP
+  __CPROVER_assert(IMPL(was_open && GK < PAY_N(op, key, value), G_crc_arg_gk == PAY_BYTE(GK, op, key, value, expiryMs)),
+                   "CRC2 the vector crc32 is computed over is op | klen32 | key | [exp64] | [vlen32 | val] (arbitrary byte GK)");
+  __CPROVER_assert(IMPL(GW < S.n && GW >= 4 && GW - 4 < PAY_N(op, key, value), S.gw == PAY_BYTE(GK, op, key, value, expiryMs)),
+                   "ENC3b payload bytes handed to the stream at record offset 4.. are op | klen32 | key | [exp64] | [vlen32 | val]");
+}
 
 /* proof "wle_ack": acknowledged => the whole record reached the OS (property C11: "the last operation ... that had returned before the crash").
  * ACK2 fails on the unchanged tree: the result of flush() is not examined (finding K3, see NOTES.md). */
-void KVStore_writeLogEntry_ack(KVStore *self, char op, iora_sv key, iora_bv value, int64_t expiryMs)
-WLE_PRE
-/* ACK2 */ __CPROVER_ensures(iora_exc == EXC_NONE ==> (!S.failed && S.flushed == S.n && S.n == ENC_N(op, key, value)))
-;
-
-void h_wle(void)
+void h_wle_ack(void)
 {
-  KVStore *self; char op; iora_sv key; iora_bv value; int64_t exp;
-  KVStore_writeLogEntry(self, op, key, value, exp);
-  IORA_CANARY("h_wle: returns");
-  if (iora_exc == EXC_NONE) { IORA_CANARY("h_wle: acknowledged"); } else { IORA_CANARY("h_wle: exception"); }
-  if (iora_exc == EXC_NONE && op == OP_E) { IORA_CANARY("h_wle: E record"); }
-  if (iora_exc == EXC_NONE && op == OP_D) { IORA_CANARY("h_wle: D record"); }
+  WLE_SETUP
+  __CPROVER_assert(IMPL(iora_exc == EXC_NONE, !S.failed && S.flushed == S.n && S.n == ENC_N(op, key, value)),
+                   "ACK2 acknowledged (normal return) => stream not failed and every byte of the record flushed to the OS");
 }
+
+#ifdef IORA_SEARCH
+/* SEARCH: the same function and clauses on small concrete-size buffers, to obtain an input for REPLAY (bounded; never counted as proof) */
+void h_search(void)
+{
+  uint8_t KEY[4]; size_t KEY_N = nondet_size_t(); uint8_t VAL[4]; size_t VAL_N = nondet_size_t(); size_t OP = nondet_size_t(); int64_t EXP = nondet_i64();
+  IORA_NONDET_BYTES(KEY, 4); IORA_NONDET_BYTES(VAL, 4);
+  __CPROVER_assume(KEY_N >= 1 && KEY_N <= 4 && VAL_N <= 4 && (OP == 83 || OP == 68 || OP == 69 || OP == 88));
+  KVStore st; KVStore *self = &st;
+  st._logStream.open = true; st._logStream.failed = false; st._logStream.gw = 0;
+  st._logStream.n = 0; st._logStream.flushed = 0; st._logStream.flush_at = 0; st._logStream.nflush = 0;
+  char op = (char)OP; iora_sv key = { (const char *)KEY, KEY_N }; iora_bv value = { VAL, VAL_N }; int64_t expiryMs = EXP;
+  GW = nondet_size_t(); GK = nondet_size_t(); G_crc_ret = nondet_u32(); G_crc_calls = 0;
+  __CPROVER_assume(GW >= 4 ==> GK == GW - 4);
+  IORA_TRUE = 1; iora_exc = EXC_NONE;
+  KVStore_writeLogEntry(self, op, key, value, expiryMs);
+  __CPROVER_assert(IMPL(iora_exc == EXC_NONE, S.n == ENC_N(op, key, value)), "ENC1 on success exactly |enc(op,key,exp,val)| bytes were handed to the stream");
+  __CPROVER_assert(IMPL(GW < S.n && GW < 4, S.gw == LE_BYTE((uint32_t)(PAY_N(op, key, value) + 4), GW)),
+                   "ENC3a length prefix: len32 == |payload| + 4, little-endian (all paths, for bytes handed over)");
+  __CPROVER_assert(IMPL(GW < S.n && GW >= 4 && GW - 4 < PAY_N(op, key, value), S.gw == PAY_BYTE(GK, op, key, value, expiryMs)),
+                   "ENC3b payload bytes handed to the stream at record offset 4.. are op | klen32 | key | [exp64] | [vlen32 | val]");
+  __CPROVER_assert(IMPL(iora_exc == EXC_NONE, !S.failed && S.flushed == S.n && S.n == ENC_N(op, key, value)),
+                   "ACK2 acknowledged (normal return) => stream not failed and every byte of the record flushed to the OS");
+}
+#endif
